@@ -226,12 +226,20 @@ pub fn gen_world(src: &mut Src<'_>, cfg: &WorldCfg) -> WorldSpec {
 		let pois = cont == Cont::Vec && src.chance(cfg.p_pois_coll);
 		let mut cand_seq: Vec<MemberSpec> = Vec::new();
 		// copy an earlier by-reference member list in a different arrangement
+		// (or the by-value members of an earlier collection, reached through it)
 		let earlier: Vec<usize> = (0..ci.min(w.colls.len()))
-			.filter(|j| matches!(&w.colls[*j].content, Content::ByRef(m) if m.len() >= 2))
+			.filter(|j| match &w.colls[*j].content {
+				Content::ByRef(m) => m.len() >= 2,
+				Content::ByVal(m) => m.len() >= 2 && Sem::inner_accessible(&w.colls[*j]),
+			})
 			.collect();
 		if !earlier.is_empty() && src.chance(cfg.p_copy_permuted) {
 			let j = earlier[src.pick(earlier.len())];
-			if let Content::ByRef(m) = &w.colls[j].content {
+			let as_refs: Option<Vec<MemberSpec>> = match &w.colls[j].content {
+				Content::ByRef(m) => Some(m.clone()),
+				Content::ByVal(m) => Some((0..m.len()).map(|k| MemberSpec::Inner(j, k)).collect()),
+			};
+			if let Some(m) = &as_refs {
 				// a lock the earlier collection stores by value is the same lock
 				// only when it is reached through that collection
 				let accessible = !w.colls[j].pois;
